@@ -527,6 +527,88 @@ pub fn run(ctx: &mut Ctx) {
         ctx.bucket(&format!("capacity/{which:?}/cap{cap}{}", if light { "/light" } else { "" }));
         ctx.class_n(&format!("max_retained_kib/capacity-{which:?}-{cap}"), (max_live.max(0) as u64) / 1024);
     }
+    // the same inside a worker: the capacity handed to the pool (directly, or through the
+    // analyzer's with_config + init_pool) bounds what one worker retains, whatever the queue
+    // length is -- queues here are far longer than the capacity
+    for (pk, cap, queue, via_analyzer) in [
+        (PoolKind::Http, 4usize, 512usize, false),
+        (PoolKind::Http, 8, 300, true),
+        (PoolKind::Tls, 4, 512, true),
+        (PoolKind::Tls, 8, 300, false),
+    ] {
+        idx += 1;
+        if !ctx.mine(idx) || ctx.miri() {
+            continue;
+        }
+        let cfg = PoolCfg { workers: 1, queue, batch: 32, timeout_ms: 1, max_conn: cap, with_db: false };
+        pool::reset_log(0, 0);
+        let h = match if via_analyzer { Handle::new_via_analyzer(pk, &cfg, Filters::none()) } else { Handle::new(pk, &cfg, Filters::none()) } {
+            Ok(h) => h,
+            Err(e) => {
+                ctx.judge(false, &[], "worker pool could not be created", || json!({"error": e}));
+                continue;
+            }
+        };
+        let conns = cap as u64 * 8;
+        let per = ctx.scale(60, 300, 4);
+        let mut sent = 0u64;
+        let mut stalled = false;
+        // nothing allocated before tracking starts may be freed while it runs
+        let _ = pool::take_events();
+        alloc::track_global(true);
+        let base = alloc::global_snap();
+        let (mut live_at_cap, mut max_after_cap, mut max_live) = (0i64, 0i64, 0i64);
+        for c in 0..conns {
+            let kind = if pk == PoolKind::Tls { Traffic::TlsHugeDeclaredRecord } else { Traffic::HttpHeadNeverCompletes };
+            let mut conn = LongConn::new(kind, 200_000 + c, ctx.seed, 1400);
+            let mut frames = conn.prelude();
+            for _ in 0..per {
+                frames.push(conn.next_frame());
+            }
+            for chunk in frames.chunks(queue.min(256)) {
+                for f in chunk {
+                    if h.dispatch(f.clone()) {
+                        sent += 1;
+                    }
+                }
+                if !pool::wait_processed(sent, Duration::from_secs(30)) {
+                    stalled = true;
+                    break;
+                }
+            }
+            if stalled {
+                break;
+            }
+            drop(frames);
+            let _ = h.drain_results();
+            let _ = pool::take_events();
+            let live = alloc::global_snap().live() - base.live();
+            max_live = max_live.max(live);
+            if c + 1 == cap as u64 {
+                live_at_cap = live;
+            } else if c + 1 > cap as u64 {
+                max_after_cap = max_after_cap.max(live);
+            }
+        }
+        alloc::track_global(false);
+        h.shutdown();
+        if stalled {
+            ctx.inconclusive("worker pool did not drain within the watchdog");
+            continue;
+        }
+        // process-wide counters also see the harness' own bookkeeping: 256 KiB of slack
+        let plateau_limit = 2 * live_at_cap + 256 * 1024;
+        ctx.judge(max_after_cap <= plateau_limit, &[], "a worker's retained memory keeps growing with the number of connections beyond the configured capacity", || {
+            json!({"pool": format!("{pk:?}"), "built_by_analyzer": via_analyzer, "capacity": cap, "queue_size": queue, "connections": conns, "segments_per_connection": per,
+                   "retained_after_capacity_connections": live_at_cap, "max_retained_later": max_after_cap, "limit(2x+256KiB)": plateau_limit})
+        });
+        let limit = 2 * cap as i64 * L;
+        ctx.judge(max_live <= limit, &[], "a worker's retained memory exceeds capacity x per-connection limit", || {
+            json!({"pool": format!("{pk:?}"), "capacity": cap, "queue_size": queue, "connections": conns, "max_retained_bytes": max_live, "limit": limit})
+        });
+        ctx.bucket(&format!("capacity/worker-{pk:?}/cap{cap}/queue{queue}/{}", if via_analyzer { "analyzer-built" } else { "direct" }));
+        ctx.class_n(&format!("max_retained_kib/capacity-worker-{pk:?}-{cap}"), (max_live.max(0) as u64) / 1024);
+    }
     huginn_net_tcp::verif_hooks::clock::clear();
 }
 
@@ -535,7 +617,7 @@ pub fn spec() -> PropSpec {
         id: "C11",
         run,
         shards: super::shards_16,
-        rule: "one connection of each traffic kind (HTTP head that never completes, POST with endless body, response that never completes, TLS application data after ServerHello / after ClientHello, ClientHello with a 65535-byte record never completed, random bytes in both directions, 1-byte segments, timestamped ACKs) is driven with N segments (quick 2e4, thorough 1e6) of 1400 and 64 payload bytes through the HTTP, TLS, TCP and unified analyzers and through one-worker pools while a counting allocator reads, after every packet, the bytes allocated for it and the bytes still retained; rules: retained <= 1 MiB per connection, allocation per packet <= 4 MiB + 8 x packet length, and with more connections than capacity retained <= capacity x 1 MiB and, after the first `capacity` connections, never more than twice what those retained plus 64 KiB (plateau; also with many connections that each leave only a 64-byte unfinished piece); a bucket is a distinct (path, traffic kind, segment size) or capacity configuration",
+        rule: "one connection of each traffic kind (HTTP head that never completes, POST with endless body, response that never completes, TLS application data after ServerHello / after ClientHello, ClientHello with a 65535-byte record never completed, random bytes in both directions, 1-byte segments, timestamped ACKs) is driven with N segments (quick 2e4, thorough 1e6) of 1400 and 64 payload bytes through the HTTP, TLS, TCP and unified analyzers and through one-worker pools while a counting allocator reads, after every packet, the bytes allocated for it and the bytes still retained; rules: retained <= 1 MiB per connection, allocation per packet <= 4 MiB + 8 x packet length, and with more connections than capacity retained <= capacity x 1 MiB and, after the first `capacity` connections, never more than twice what those retained plus 64 KiB (plateau; also with many connections that each leave only a 64-byte unfinished piece; also inside one-worker HTTP and TLS pools whose queues are far longer than their connection capacity); a bucket is a distinct (path, traffic kind, segment size) or capacity configuration",
         assumptions: &[
             "bytes allocated while handling a packet are the work proxy (re-assembly and re-parsing copy what they process)",
             "limits are generous constants (1 MiB retained per connection, 4 MiB constant work term); growth proportional to history crosses them within the driven length",
